@@ -18,19 +18,60 @@ class Ctx:
         self.assumptions = []
         self.known_seen = {}
         self._distinct = set()
+        self._gtexts = {}         # gid -> grammar text of the suites seen (a replay file carries the grammar)
+        self._suites_seen = set()
+        self.replaying = False    # check.py --replay: one-grammar suite, no coverage floor
+
+    def note_suite(self, result):
+        """Every suite a check looks at: remembers the grammar texts (for replay files) and reports the corpus grammars
+        whose derive output did not compile (the suite ran without them: one grammar must not hide the rest)."""
+        key = getattr(result, "dir", id(result))
+        if key in self._suites_seen:
+            return
+        self._suites_seen.add(key)
+        for gid, gi in getattr(result, "grammars", {}).items():
+            if isinstance(gi, dict) and "text" in gi:
+                self._gtexts[gid] = gi["text"]
+        for f in getattr(result, "meta", {}).get("build_failures", []) or []:
+            self._gtexts[f["gid"]] = f["text"]
+            self.violation("derive output does not compile", (f["gid"], "-", "build", "-", 0, 0, ""), error=f.get("error", "")[:1500],
+                           attrs=f.get("attrs", ""), suite=result.meta.get("suite"))
 
     def tie(self, name, result, keys, case_filter=None):
-        total, n, diffs = suites.tie_diffs(result, keys, case_filter)
-        self.ties[name] = {"cases": total, "agree": total - n, "observables": keys}
+        self.note_suite(result)
+        st = suites.tie_stats(result, keys, case_filter)
+        total, n, oof = st["cases"], st["disagree"], st["oof_skipped"]
+        self.ties[name] = {"cases": total, "agree": st["agree"], "oof_skipped": oof, "observables": keys}
         if n:
-            self.tie_broken(name, {"disagreements": n, "first": diffs[:5]})
+            self.tie_broken(name, {"disagreements": n, "first": st["first"][:5]})
+        if total == 0 and not self.replaying:
+            # coverage floor: a tie that selected no rows says nothing, so it does not hold
+            self.tie_broken(name, {"error": "the tie selected 0 cases (corpus / filter mismatch): nothing was compared"})
+        elif oof * 100 > total and not self.replaying:
+            self.tie_broken(name, {"error": f"the model ran out of fuel on {oof} of {total} cases (> 1 %): these rows were not compared"})
         return n
+
+    def tie_l0(self, name, result, profile, case_filter=None):
+        """Tie of the byte-level model (RunL0, driver command `l0`) to the implementation rows of a suite built in that profile."""
+        self.note_suite(result)
+        st = suites.l0_tie(result, profile, case_filter, tag=name)
+        self.ties[name] = {k: st[k] for k in ("cases", "agree", "oof_skipped", "panic_or_ub", "observables")}
+        if st["disagree"]:
+            self.tie_broken(name, {"disagreements": st["disagree"], "first": st["first"][:5]})
+        if st["cases"] == 0 and not self.replaying:
+            self.tie_broken(name, {"error": "the tie selected 0 cases: nothing was compared"})
+        elif st["oof_skipped"] * 100 > st["cases"] and not self.replaying:
+            self.tie_broken(name, {"error": f"the byte-level model ran out of fuel on {st['oof_skipped']} of {st['cases']} cases (> 1 %)"})
+        return st["disagree"]
 
     def tie_broken(self, name, detail):
         self.broken_ties.append({"tie": name, **detail})
 
     def violation(self, what, case, **detail):
-        self.violations.append({"what": what, "case": case_dict(case), **detail})
+        v = {"what": what, "case": case_dict(case), **detail}
+        if case[0] in self._gtexts:
+            v["grammar_text"] = self._gtexts[case[0]]
+        self.violations.append(v)
 
     def count(self, case, nontrivial):
         self.evaluations += 1
@@ -111,7 +152,8 @@ def check_C03(ctx):
                      "alphabet + random longer ones, three input forms); a case is non-trivial when it consumed input, "
                      "left a non-empty stack or recorded attempts under more than one rule; distinct by (grammar, rule, form, range, input)")
     keys = ["v", "end", "stk", "trk"]
-    for name, res in (("T-run", suites.suite_run(ctx.tier, ctx.seed)), ("T-raw", suites.suite_raw(ctx.tier, ctx.seed))):
+    for name, res in (("T-run", suites.suite_run(ctx.tier, ctx.seed)), ("T-raw", suites.suite_raw(ctx.tier, ctx.seed)),
+                      ("T-run-noopt", suites.suite_run_noopt(ctx.tier, ctx.seed))):
         api_oracle(ctx, res)
         # each path separately against its own model function
         ctx.tie(name + ":parse-path", res, keys, lambda c: c[2] in ("parse_partial", "parse"))
@@ -149,55 +191,122 @@ def prune(toks, atomic):
 _FWS_CACHE = {}
 
 
-def fws_grammar(ginfo):
-    key = ginfo.get("sexp", "")[:80] + str(len(ginfo.get("sexp", "")))
-    if key not in _FWS_CACHE:
-        _FWS_CACHE[key] = _fws_grammar(ginfo)
-    return _FWS_CACHE[key]
+_SKIPHYP = {}      # (sexp, opt|raw) -> {"like": bool, "implicit": {rule: bool}, "implicit_tok": {rule: bool}}
 
 
-def fws_case(ginfo, rule, tokens=False):
-    """Does known finding F-WS apply to a case with this entry rule?  Verdict / offset: only when the entry rule is a
-    risky skip rule itself or reaches an EXPLICIT reference to one (implicit skipping matches skip rules atomically,
-    like pest).  Tokens: additionally whenever a risky skip rule's body mentions a grammar rule (inner tokens are
-    kept where pest prunes them)."""
+def _skiphyp_parse(line):
+    d = suites.parse_obs(line)
+    if "like" not in d:
+        raise RuntimeError("model_driver skiphyp: " + line[:200])
+    bits = lambda txt: {kv.rsplit(":", 1)[0]: kv.rsplit(":", 1)[1] == "1" for kv in txt.split(",") if ":" in kv}
+    return {"like": d["like"] == "1", "implicit": bits(d.get("implicit", "")), "implicit_tok": bits(d.get("implicit_tok", ""))}
+
+
+def preload_skip_hypotheses(res):
+    """One driver process evaluates the Lean hypotheses on the skip rules (`skiphyp`, Driver/SkipHyp.lean) for every grammar
+    of a suite; `which` = the AST the suite's derive walked (raw under `#[pest_optimizer = false]`)."""
+    import subprocess
+    which = "raw" if "pest_optimizer = false" in (getattr(res, "meta", {}) or {}).get("attrs", "") else "opt"
+    todo = []
+    for gid, gi in getattr(res, "grammars", {}).items():
+        if isinstance(gi, dict) and "sexp" in gi:
+            gi["_ast"] = which
+            if (gi["sexp"], which) not in _SKIPHYP:
+                todo.append((gid, gi))
+    if not todo or not getattr(res, "dir", None):
+        return
+    suites.ensure_driver()
+    sexp = res.dir + ".sexp"
+    p = subprocess.run([suites.DRIVER, sexp, suites.uni_table_for(sexp)], input="".join(f"skiphyp {gid} {which}\n" for gid, _ in todo), capture_output=True, text=True)
+    lines = p.stdout.splitlines()
+    for (gid, gi), line in zip(todo, lines):
+        _SKIPHYP[(gi["sexp"], which)] = _skiphyp_parse(line)
+
+
+def skip_hypotheses(ginfo):
+    """The Lean predicates of one grammar (cached; evaluated by its own driver call when no suite preloaded them)."""
+    import subprocess, tempfile
+    which = ginfo.get("_ast", "opt")
+    key = (ginfo.get("sexp", ""), which)
+    if key not in _SKIPHYP:
+        suites.ensure_driver()
+        with tempfile.NamedTemporaryFile("w", suffix=".sexp", delete=False) as f:
+            f.write(ginfo["sexp"] + "\n")
+        try:
+            gid = ginfo["sexp"].split()[1]
+            p = subprocess.run([suites.DRIVER, f.name, ""], input=f"skiphyp {gid} {which}\n", capture_output=True, text=True)
+            _SKIPHYP[key] = _skiphyp_parse((p.stdout.splitlines() or ["v=missing " + p.stderr[-200:]])[0])
+        finally:
+            os.remove(f.name)
+    return _SKIPHYP[key]
+
+
+def fws_predicates(ginfo):
+    """THE single place where the applicability of known finding F-WS is decided (every check goes through `fws_grammar` /
+    `fws_case`, which only read this).  Authority: the Lean predicates themselves, evaluated by model_driver (`skiphyp`):
+      like          = `SkipRulesAtomicLike g`  (hypothesis of C01_* / C02_tree*),
+      implicit[e]   = `SkipRulesImplicitOnly g e`    (C01_*_implicit_entry, C07_as_pest_implicit_entry: verdict / offset / stack as pest),
+      implicit_tok[e] = `SkipRulesImplicitOnlyTok g e` (C02_tree_implicit, C07_rule_spans_as_pest_implicit: token tree as pest).
+    A verdict / offset violation may be attributed to F-WS only if like = 0 and implicit[entry] = 0, a token violation only
+    if like = 0 and implicit_tok[entry] = 0.  The python approximation that was used before (`fws_python`) is kept only to
+    REPORT where it disagrees with the Lean predicates (coverage `fws_python_vs_lean`)."""
+    return skip_hypotheses(ginfo)
+
+
+def fws_python(ginfo):
+    """Python mirror of lean/PestTyped/Lemmas/SkipLike.lean on the optimized AST (NOT the authority, see fws_predicates):
+      `SimpleSkipBody`: no sequence, no repetition of any kind, no reference to a rule of the grammar, no `EOI`;
+      `SkipRulesAtomicLike g`: every WHITESPACE / COMMENT rule is @ / $ or has a simple body  (= `atomic_like`).
+    Returns atomic_like, risky (the skip rules that break the hypothesis), reach (rules that are a risky skip rule or reach
+    an EXPLICIT reference to one: verdict / offset may differ from pest there), inner (a risky skip body mentions a rule of
+    the grammar: its inner tokens are kept where pest prunes them), can_skip (rules that reach a sequence / repetition,
+    i.e. may run the implicit skip and so contain the skip rules' tokens)."""
     import corpus
-    key = ("case", ginfo.get("sexp", "")[:80] + str(len(ginfo.get("sexp", ""))))
-    if key not in _FWS_CACHE:
-        info = {"risky": set(), "reach": set(), "inner": False}
-        if _fws_grammar(ginfo):
-            sx = corpus.parse_sexp(ginfo["sexp"])
-            rules = {r[1]: r for r in sx[2:]}
+    key = ginfo.get("sexp", "")
+    if key in _FWS_CACHE:
+        return _FWS_CACHE[key]
+    info = {"atomic_like": True, "risky": set(), "reach": set(), "inner": False, "can_skip": set()}
+    sx = corpus.parse_sexp(key) if key else None
+    if sx:
+        rules = {r[1]: r for r in sx[2:]}
+        REPS = ("rep", "reponce", "repexact", "repmin", "repmax", "repminmax")
 
-            def risky(e):
-                if isinstance(e, list):
-                    if e[0] in ("seq", "rep", "reponce", "repexact", "repmin", "repmax", "repminmax"):
-                        return True
-                    if e[0] == "ident" and e[1] in rules:
-                        return True
-                    return any(risky(c) for c in e[1:])
+        def simple(e):
+            if not isinstance(e, list):
+                return True
+            if e[0] == "seq" or e[0] in REPS:
                 return False
+            if e[0] == "ident":
+                return e[1] not in rules and e[1] != "EOI"
+            if e[0] in ("str", "insens", "range", "peekslice", "skip"):
+                return True
+            return all(simple(c) for c in e[1:])
 
-            def idents(e, out):
-                if isinstance(e, list):
-                    if e[0] == "ident":
-                        out.add(e[1])
-                    for c in e[1:]:
-                        idents(c, out)
-            for n in ("WHITESPACE", "COMMENT"):
-                if n in rules and rules[n][2] not in ("atomic", "compound") and risky(rules[n][3]):
-                    info["risky"].add(n)
-                    ids = set()
-                    idents(rules[n][3], ids)
-                    if ids & set(rules):
-                        info["inner"] = True
-            refs = {}
-            for n, r in rules.items():
+        def idents(e, out):
+            if isinstance(e, list):
+                if e[0] == "ident":
+                    out.add(e[1])
+                for c in e[1:]:
+                    idents(c, out)
+
+        def has_site(e):
+            return isinstance(e, list) and (e[0] == "seq" or e[0] in REPS or any(has_site(c) for c in e[1:]))
+        for n in ("WHITESPACE", "COMMENT"):
+            if n in rules and rules[n][2] not in ("atomic", "compound") and not simple(rules[n][3]):
+                info["risky"].add(n)
                 ids = set()
-                idents(r[3], ids)
-                idents(r[4], ids)
-                refs[n] = ids & set(rules)
-            reach = set(info["risky"])
+                idents(rules[n][3], ids)
+                if ids & set(rules):
+                    info["inner"] = True
+        info["atomic_like"] = not info["risky"]
+        refs = {}
+        for n, r in rules.items():
+            ids = set()
+            idents(r[3], ids)
+            refs[n] = ids & set(rules)
+
+        def closure(start):
+            reach = set(start)
             changed = True
             while changed:
                 changed = False
@@ -205,37 +314,82 @@ def fws_case(ginfo, rule, tokens=False):
                     if n not in reach and refs[n] & reach:
                         reach.add(n)
                         changed = True
-            info["reach"] = reach
-        _FWS_CACHE[key] = info
-    info = _FWS_CACHE[key]
-    return rule in info["reach"] or (tokens and info["inner"])
+            return reach
+        info["reach"] = closure(info["risky"]) if info["risky"] else set()
+        info["can_skip"] = closure({n for n, r in rules.items() if has_site(r[3])})
+    _FWS_CACHE[key] = info
+    return info
 
 
-def _fws_grammar(ginfo):
-    """F-WS root cause: a WHITESPACE/COMMENT rule that is not declared @/$ and whose body contains
-    a sequence, a repetition or a rule reference (pest forces such bodies atomic, pest-typed does not)."""
-    import corpus
-    sx = corpus.parse_sexp(ginfo["sexp"]) if "sexp" in ginfo else None
-    if not sx:
+def skip_rule_uses_stack(ginfo):
+    """A WHITESPACE / COMMENT rule of the grammar contains a stack operation (directly; the corpus has no indirect ones)."""
+    key = ("stackskip", ginfo.get("sexp", ""))
+    if key not in _FWS_CACHE:
+        _FWS_CACHE[key] = any(re.search(r"^(WHITESPACE|COMMENT) = [^\n]*(PUSH|PEEK|POP|DROP)", l) for l in ginfo.get("text", "").splitlines())
+    return _FWS_CACHE[key]
+
+
+def fws_grammar(ginfo):
+    """The grammar is outside `SkipRulesAtomicLike` (root cause of F-WS present somewhere in it)."""
+    return not fws_predicates(ginfo)["like"]
+
+
+def fws_case(ginfo, rule, tokens=False):
+    """Does known finding F-WS apply to a case with this entry rule?  Only where NO theorem promises agreement with pest:
+    `SkipRulesAtomicLike g` fails and, for the entry rule, `SkipRulesImplicitOnly` (verdict / offset) resp.
+    `SkipRulesImplicitOnlyTok` (token tree) fails too.  (A token case is also outside the theorems when its verdict case is.)"""
+    h = fws_predicates(ginfo)
+    if h["like"]:
         return False
-    for r in sx[2:]:
-        if r[1] in ("WHITESPACE", "COMMENT") and r[2] not in ("atomic", "compound"):
-            def risky(e):
-                if isinstance(e, list):
-                    if e[0] in ("seq", "rep", "reponce", "repexact", "repmin", "repmax", "repminmax"):
-                        return True
-                    if e[0] == "ident" and e[1] not in ("ANY", "SOI", "EOI", "NEWLINE") and not e[1].startswith("ASCII"):
-                        return True
-                    return any(risky(c) for c in e[1:])
-                return False
-            if risky(r[3]):
-                return True
-    return False
+    if not h["implicit"].get(rule, False):
+        return True
+    return bool(tokens) and not h["implicit_tok"].get(rule, False)
 
 
-def threeway(ctx, res, want_tokens, gid_filter=None, want_stack=False):
-    """Shared oracle of C01 (verdict/offset), C02 (token tree) and C07 (same, on skip-relevant grammars)."""
+def fws_python_case(ginfo, rule, tokens=False):
+    """The former python approximation of `fws_case` (reporting only)."""
+    info = fws_python(ginfo)
+    return rule in info["reach"] or (tokens and info["inner"] and rule in info["can_skip"])
+
+
+def skip_hypothesis_coverage(ctx, res, gid_filter=None):
+    """Coverage: on how many corpus (grammar, entry rule) pairs each hypothesis of the C01 / C02 / C07 theorems holds (the
+    theorems are not vacuous on the corpus), and where the former python approximation of F-WS disagrees with them."""
+    st = {"grammars": 0, "like": 0, "pairs": 0, "pairs_like": 0, "pairs_implicit": 0, "pairs_implicit_tok": 0,
+          "pairs_outside_every_theorem": 0}
+    dis = []
+    for gid, gi in res.grammars.items():
+        if (gid_filter and not gid_filter(gid)) or "sexp" not in gi:
+            continue
+        h = fws_predicates(gi)
+        st["grammars"] += 1
+        st["like"] += 1 if h["like"] else 0
+        for rule, _ in gi["rules"]:
+            st["pairs"] += 1
+            st["pairs_like"] += 1 if h["like"] else 0
+            st["pairs_implicit"] += 1 if h["like"] or h["implicit"].get(rule) else 0
+            st["pairs_implicit_tok"] += 1 if h["like"] or h["implicit_tok"].get(rule) else 0
+            st["pairs_outside_every_theorem"] += 1 if fws_case(gi, rule) else 0
+            for tok in (False, True):
+                a, b = fws_python_case(gi, rule, tok), fws_case(gi, rule, tok)
+                if a != b and len(dis) < 40:
+                    dis.append({"grammar": gid, "entry": rule, "tokens": tok, "python_said_fws": a, "lean_says_fws": b})
+    if True:
+        for gid, gi in res.grammars.items():
+            if "sexp" in gi and (not gid_filter or gid_filter(gid)) and fws_python(gi)["atomic_like"] != fws_predicates(gi)["like"] and len(dis) < 60:
+                dis.append({"grammar": gid, "python_atomic_like": fws_python(gi)["atomic_like"], "lean_like": fws_predicates(gi)["like"]})
+    ctx.coverage.setdefault("distribution", {})["skip_hypotheses"] = st
+    ctx.coverage["fws_python_vs_lean"] = dis
+
+
+def threeway(ctx, res, want_tokens, gid_filter=None, want_stack=False, lean_tokens=None, skip_fws=False):
+    """Shared oracle of C01 (verdict/offset), C02 (token tree) and C07 (same, on skip-relevant grammars).
+    `lean_tokens` (checks/spectok.py: the Lean `pruneAtomic (specTok …)` forests, tied to pest's own forests by
+    `Spec-tokens-vs-pest`): when given, it is the authority for the expected token tree of EVERY case the Spec accepts
+    (also where pest panics or is no reference); without it the python `prune` of pest's forest is used where pest ran."""
     stats = {"pest_eq_spec": 0, "pest_panic": 0, "pest_ne_spec_stack": 0, "spec_oof": 0, "accepted": 0, "rejected": 0}
+    preload_skip_hypotheses(res)
+    skip_hypothesis_coverage(ctx, res, gid_filter)
     # the Spec's answer is computed by the driver on parse_partial cases; check_partial cases of the same
     # (grammar, rule, input) are judged against the same answer (C03: the two paths must agree)
     spec_of = {}
@@ -261,12 +415,23 @@ def threeway(ctx, res, want_tokens, gid_filter=None, want_stack=False):
         sp = spec.split(":", 2)
         exp_v, exp_end = ("ok", sp[1]) if sp[0] == "ok" else ("fail", None)
         pest = io.get("pest")
+        # a silent entry rule (`pest=silent:…`, corpus.FN_PS): pest gives verdict and forest but no end offset
+        silent_entry = pest is not None and pest.startswith("silent:")
+        if silent_entry:
+            pest = pest[len("silent:"):]
         fws = fws_case(ginfo, c[1])
+        if fws and skip_fws:
+            # C05 / C06 judge restore points and stack operations: a case whose entry rule is / explicitly refers to a
+            # non-atomic composite skip rule is the subject of known finding F-WS (judged and listed under C01 / C02 / C07)
+            stats["fws_cases_left_to_C01"] = stats.get("fws_cases_left_to_C01", 0) + 1
+            continue
         if pest is not None:
             if pest == "panic":
                 stats["pest_panic"] += 1
             else:
                 pv, pend = ("ok", pest.split(":")[1]) if pest.startswith("ok:") else ("fail", None)
+                if silent_entry and pv == "ok":
+                    pend = exp_end
                 if (pv, pend) == (exp_v, exp_end):
                     stats["pest_eq_spec"] += 1
                 elif ginfo.get("uses_stack"):
@@ -284,15 +449,23 @@ def threeway(ctx, res, want_tokens, gid_filter=None, want_stack=False):
                           impl={"v": io.get("v"), "end": io.get("end")}, expected={"v": exp_v, "end": exp_end, "authority": "Spec (Lean), pest=" + str(pest)[:80]}, fws=fws)
         elif want_stack and exp_v == "ok" and io.get("stk") != sp[2]:
             ctx.violation("final stack differs from backtracking PEG semantics", c, impl=io.get("stk"), expected=sp[2])
-        elif want_tokens and c[2] == "parse_partial" and exp_v == "ok" and pest and pest.startswith("ok:") and pest.split(":")[1] == exp_end:
-            # (where pest itself departs from backtracking PEG semantics on a stack-using grammar its tree is not a reference)
-            atomic = {n for n, k in ginfo["rules"] if k in ("atomic", "compound")}
-            ptoks = prune(parse_tokens(pest.split(":", 2)[2]), atomic)
+        elif want_tokens and c[2] == "parse_partial" and exp_v == "ok":
+            lo = lean_tokens.get((c[0], c[1], c[6])) if lean_tokens is not None else None
+            if lo is not None and lo.get("spec") == spec and "sprune" in lo:
+                # authority: the Lean `pruneAtomic (specTokPartial …)`, the right-hand side of C02_tree itself
+                ptoks, shown, auth = parse_tokens(lo["sprune"]), lo["sprune"], "pruneAtomic (specTok) (Lean), pest=" + str(pest)[:80]
+            elif pest and pest.startswith("ok:") and (silent_entry or pest.split(":")[1] == exp_end):
+                # (where pest itself departs from backtracking PEG semantics on a stack-using grammar its tree is not a reference)
+                atomic = {n for n, k in ginfo["rules"] if k in ("atomic", "compound")}
+                ptoks, shown, auth = prune(parse_tokens(pest.split(":", 2)[2]), atomic), pest.split(":", 2)[2], "pest, pruned (python)"
+            else:
+                continue
+            stats["token_trees_judged"] = stats.get("token_trees_judged", 0) + 1
             itoks = parse_tokens(io.get("tok", "[]"))
             if ptoks != itoks:
                 fwst = fws_case(ginfo, c[1], tokens=True)
                 ctx.violation("token tree differs from pest's pruned tree" + (" [skip rule not atomic]" if fwst else ""), c,
-                              impl=io.get("tok"), expected=pest.split(":", 2)[2], fws=fwst)
+                              impl=io.get("tok"), expected=shown, authority=auth, fws=fwst)
     ctx.coverage.setdefault("distribution", {}).update(stats)
 
 
@@ -316,7 +489,9 @@ def check_C02(ctx):
     ctx.rule_text = RUN_RULE
     res = suites.suite_run(ctx.tier, ctx.seed)
     ctx.tie("T-run:tokens", res, ["v", "tok"], lambda c: c[2] in ("parse_partial", "parse"))
-    threeway(ctx, res, want_tokens=True)
+    # the theorem's right-hand side executed and tied to pest: Lean specTok forest == pest's forest (checks/spectok.py)
+    from .spectok import tie_spectok
+    threeway(ctx, res, want_tokens=True, lean_tokens=tie_spectok(ctx, res))
 
 
 def check_C07(ctx):
@@ -326,7 +501,8 @@ def check_C07(ctx):
     ctx.tie("T-run:offsets-tokens", res, ["v", "end", "tok"], lambda c: c[0] in skipg and c[2] in ("parse_partial", "parse", "check_partial"))
     from .tgen import tie_tgen
     tie_tgen(ctx, ctx.tier, ctx.seed)      # every SKIP / INHERITED argument the generator emits vs Model.Gen
-    threeway(ctx, res, want_tokens=True, gid_filter=lambda g: g in skipg)
+    from .spectok import tie_spectok
+    threeway(ctx, res, want_tokens=True, gid_filter=lambda g: g in skipg, lean_tokens=tie_spectok(ctx, res))
 
 
 
@@ -393,25 +569,201 @@ def check_C06(ctx):
     run = suites.suite_run(ctx.tier, ctx.seed)
     stackg = {gid for gid, gi in run.grammars.items() if gi.get("uses_stack")}
     ctx.tie("T-run:stack-grammars", run, ["v", "end", "stk", "trk"], lambda c: c[0] in stackg)
-    threeway(ctx, run, want_tokens=False, gid_filter=lambda g: g in stackg, want_stack=True)
+    threeway(ctx, run, want_tokens=False, gid_filter=lambda g: g in stackg, want_stack=True, skip_fws=True)
+
+
+def _c19_impl_obs(io):
+    """C19's observables of one implementation row: verdict, cursor, stack and - read from the `{:?}` text of the value the
+    runner printed - the element list of the first counted repetition (`n`, `items`, `skips`; checks/pyref.py).  The tracker is
+    NOT among them: what failed attempts record is C10's subject (and tied on this suite by C03 / C09)."""
+    o = {k: io[k] for k in ("v", "pre", "end", "stk") if k in io}
+    items = None
+    dbg = io.get("dbg")
+    if dbg is not None and io.get("v") == "ok":
+        o["dbg"] = dbg
+        hit = _C19_DBG_MEMO.get(dbg)
+        if hit is None:
+            from . import pyref
+            try:
+                items = pyref.debug_rep_items(_unhex_obs(dbg))
+                hit = (items, pyref.render_rep_items(items))
+            except Exception as e:
+                hit = (None, {"n": "unreadable: " + str(e)[:80]})
+            if len(_C19_DBG_MEMO) < 200000:
+                _C19_DBG_MEMO[dbg] = hit
+        items = hit[0]
+        o.update(hit[1])
+    return o, items
+
+
+_C19_DBG_MEMO = {}
 
 
 def check_C19(ctx):
-    ctx.rule_text = ("T-raw: RepeatMin / RepeatMinMax for MIN, MAX in 0..4 x skip on/off x element kinds (string, choice, nested repetition, "
-                     "stack op), arrays, pairs, optionals, skip-n-chars, skip-repeat; inputs = all strings up to length 4 (quick) / 6 (thorough) over "
-                     "{a, b, space} + random ones up to length 8; oracle = independent python PEG evaluator (greedy, bounds, skip given back); "
+    ctx.rule_text = ("T-raw: RepeatMin / RepeatMinMax for MIN, MAX in 0..4 x skip flag 0 / 1 / INHERITED (reached with 0 and 1) x element kinds "
+                     "(string, choice, nested repetition, stack ops, rule struct, elements that match without consuming), arrays, pairs, optionals, "
+                     "skip-n-chars, skip-repeat; the four loops of RepeatMin<_,0> / RepeatMinMax<_,0,MAX> as NeverFailedTypedNode (parse_with / "
+                     "check_with: called directly after a prefix, SKIP in 0..2, MAX in none, 0..4, and as `$ignored` of rule!); inputs = all strings "
+                     "up to length 5 over {a, b, space} (quick) / 6 over {a, b, space} and 8 over {a, space} (thorough) + targeted inputs with up to 7 "
+                     "matchable iterations (blanks interleaved) + random ones up to length 9, whole-string, Position and Span forms; observables = "
+                     "verdict, cursor, stack, NUMBER OF ELEMENTS, span of every element and of every skipped blank (from the value's Debug text), "
+                     "the Debug text itself; oracle = independent python PEG evaluator (greedy, bounds, skip given back, iterations listed); "
                      "parse and check compared model-free")
+    from . import pyref
+    import rawgen
     res = suites.suite_raw(ctx.tier, ctx.seed)
-    f = lambda c: c[0].startswith("rep_")
-    ctx.tie("T-raw:repetition", res, ["v", "end", "stk", "trk"], f)
-    raw_oracle(ctx, res, lambda g, r: g.startswith("rep_"), "bounded repetition / raw combinator")
-    for key, ent in group_by_input(res, f).items():
-        if "parse_partial" in ent and "check_partial" in ent:
-            (c, pio, _), (_, cio, _) = ent["parse_partial"], ent["check_partial"]
-            bad = [k for k in ("v", "end", "stk", "trk") if pio.get(k) != cio.get(k)]
+    ctx.note_suite(res)
+    gs = {g["gid"]: g for g in rawgen.all_raw() if g["gid"].startswith("rep_")}
+    refs = {gid: pyref.Ref(g) for gid, g in gs.items()}
+    rules = {gid: {r["name"]: r for r in g["rules"]} for gid, g in gs.items()}
+    # --- tie: C19's own observables (no tracker), element list included
+    keys = ["v", "pre", "end", "stk", "n", "items", "skips", "dbg"]
+    tie = {"cases": 0, "agree": 0, "oof_skipped": 0, "observables": keys, "with_element_list": 0, "with_debug_text": 0}
+    diffs = []
+    hist = {"ok": 0, "fail": 0, "nf_direct": 0, "ignored_full": 0, "elements_checked": 0, "max_elements": 0, "stopped_at_max_with_more_input": 0}
+    groups = {}
+    atmax = {}
+    for c, iline, mline in zip(res.cases, res.impl, res.model):
+        if c[0] not in gs:
+            continue
+        io, mo = suites.parse_obs(iline), suites.parse_obs(mline)
+        obs, items = _c19_impl_obs(io)
+        tie["cases"] += 1
+        if mo.get("v") == "oof":
+            tie["oof_skipped"] += 1
+        else:
+            bad = [k for k in keys if (k in mo or k in obs) and obs.get(k) != mo.get(k) and not (k == "dbg" and mo.get(k) == "-")]
             if bad:
-                ctx.violation(f"parse vs check differ on {bad} for a raw combinator", c)
-    ctx.coverage["exhaustive"] = True
+                if len(diffs) < 5:
+                    diffs.append({"case": list(c), "keys": bad, "impl": {k: obs.get(k) for k in bad}, "model": {k: mo.get(k) for k in bad}})
+                tie["disagree"] = tie.get("disagree", 0) + 1
+            else:
+                tie["agree"] += 1
+                tie["with_element_list"] += 1 if obs.get("n", "-") != "-" else 0
+                tie["with_debug_text"] += 1 if mo.get("dbg", "-") != "-" else 0
+        groups.setdefault((c[0], c[1], c[3], c[4], c[5], c[6]), {})[c[2]] = (obs.get("v"), obs.get("pre"), obs.get("end"), obs.get("stk"))
+        # --- oracle: the python reference on the same (sub-)input
+        entry = c[2]
+        if entry not in ("parse_partial", "nf_parse", "nf_check", "parse", "check"):
+            continue
+        ref = refs[c[0]]
+        shift, text = 0, c[6]
+        if c[3] in ("span", "pos"):
+            bts = c[6].encode("utf-8")
+            shift = c[4]
+            text = bts[c[4]:(c[5] if c[3] == "span" else len(bts))].decode("utf-8")
+        sh = lambda sp: None if sp is None else (sp[0] + shift, sp[1] + shift)
+        got_v = obs.get("v")
+        show = {k: obs.get(k) for k in ("v", "pre", "end", "stk", "n", "items", "skips") if k in obs}
+        exp_items = None
+        if entry in ("parse", "check"):
+            if not rules[c[0]].get(c[1], {}).get("ignored"):
+                continue
+            hist["ignored_full"] += 1
+            exp = ref.run_rule_full(c[1], text)
+            ctx.count(c, got_v == "ok")
+            want = "fail" if exp is None else "ok"
+            if got_v != want or (exp is not None and stack_texts(obs.get("stk", "[]"), c[6]) != exp):
+                ctx.violation("rule with a counted repetition as $ignored: full entry differs from the reference", c, impl=show,
+                              expected={"v": want, "stack_texts": None if exp is None else list(exp)})
+            continue
+        if entry == "parse_partial":
+            exp = ref.run_rule_items(c[1], text)
+            ctx.count(c, got_v == "ok" and (obs.get("end") != "0" or obs.get("stk") != "[]"))
+            ctx.sample(c, io)
+            hist["ok" if exp else "fail"] += 1
+            if exp is None:
+                if got_v != "fail":
+                    ctx.violation("bounded repetition / raw combinator: expected failure", c, impl=show, expected="fail (python reference)")
+                continue
+            got = (got_v, obs.get("end"), stack_texts(obs.get("stk", "[]"), c[6]) if got_v == "ok" else None)
+            if got != ("ok", str(exp[0] + shift), exp[1]):
+                ctx.violation("bounded repetition / raw combinator: wrong result", c, impl=show,
+                              expected={"v": "ok", "end": exp[0] + shift, "stack_texts": list(exp[1])})
+                continue
+            exp_items = exp[2]
+            body = rules[c[0]][c[1]]["body"]
+            bounds = (body[2], body[3]) if body[0] == "rep" else None
+            more_from = (0 if body[1] == "0" else 1, body[4], (0, ())) if body[0] == "rep" else None
+        else:
+            exp = ref.run_nf(c[1], text)
+            hist["nf_direct"] += 1
+            ctx.count(c, got_v == "ok" and obs.get("end") != obs.get("pre"))
+            if exp is None:
+                if got_v != "prefail":
+                    ctx.violation("direct call of a never-failing repetition: the prefix should not match", c, impl=show)
+                continue
+            got = (got_v, obs.get("pre"), obs.get("end"), stack_texts(obs.get("stk", "[]"), c[6]) if got_v == "ok" else None)
+            if got != ("ok", str(exp[0] + shift), str(exp[1] + shift), exp[2]):
+                ctx.violation("direct call of a never-failing repetition (parse_with / check_with): wrong result", c, impl=show,
+                              expected={"v": "ok", "pre": exp[0] + shift, "end": exp[1] + shift, "stack_texts": list(exp[2])})
+                continue
+            if entry == "nf_check":
+                continue
+            exp_items = exp[3]
+            it = ref.nf[c[1]]
+            bounds = (0, it["max"])
+            more_from = (it["k"], it["elem"], ref.ev(it["pre"], text, 0, (), True))
+        # the element list: count, order, spans (greedy: as many as the reference, never more than MAX, never fewer than MIN)
+        if exp_items is None:
+            continue
+        hist["elements_checked"] += 1
+        hist["max_elements"] = max(hist["max_elements"], len(exp_items))
+        if items is None:
+            ctx.violation("the value has no readable element list", c, impl=show, expected={"n": len(exp_items)})
+            continue
+        okc = len(items) == len(exp_items)
+        if okc:
+            for (gsk, gel), (esk, eel) in zip(items, exp_items):
+                if (eel is not None and gel != sh(eel)) or (esk is not None and gsk != [sh(x) for x in esk]):
+                    okc = False
+        if bounds and okc and not (bounds[0] <= len(items) and (bounds[1] is None or len(items) <= bounds[1])):
+            okc = False
+        if not okc:
+            ctx.violation("counted repetition: wrong element list (count / element spans / skipped blanks)", c, impl=show,
+                          expected=pyref.render_rep_items([([] if sk is None else [sh(x) for x in sk], sh(el)) for sk, el in exp_items]),
+                          bounds={"min": bounds[0], "max": bounds[1]} if bounds else None)
+        elif bounds and bounds[1] is not None and len(items) == bounds[1] and more_from is not None:
+            # stopped at MAX: would the reference, allowed one more iteration, match one more?  Then the clause "stops at MAX even
+            # if more could match" was exercised for this MAX (counted per MAX; every MAX of the corpus must occur)
+            nskip, elem, st = more_from
+            _, longer = ref.rep_run(nskip, bounds[1] + 1, elem, text, st[0], st[1], entry == "parse_partial")
+            if len(longer) > bounds[1]:
+                atmax[bounds[1]] = atmax.get(bounds[1], 0) + 1
+    ctx.ties["T-raw:repetition"] = {k: v for k, v in tie.items() if k != "disagree"}
+    if tie.get("disagree"):
+        ctx.tie_broken("T-raw:repetition", {"disagreements": tie["disagree"], "first": diffs})
+    if tie["cases"] == 0 and not ctx.replaying:
+        ctx.tie_broken("T-raw:repetition", {"error": "the tie selected 0 cases (corpus / filter mismatch): nothing was compared"})
+    elif tie["oof_skipped"] * 100 > tie["cases"] and not ctx.replaying:
+        ctx.tie_broken("T-raw:repetition", {"error": f"the model ran out of fuel on {tie['oof_skipped']} of {tie['cases']} cases (> 1 %)"})
+    # --- model-free: the parse copy and the check copy of every loop (verdict, cursor, stack; not the tracker)
+    pairs = 0
+    for key, ent in groups.items():
+        for pe, ce in (("parse_partial", "check_partial"), ("parse", "check"), ("nf_parse", "nf_check")):
+            if pe in ent and ce in ent:
+                po, co = ent[pe], ent[ce]
+                pairs += 1
+                if po != co:
+                    names = ("v", "pre", "end", "stk")
+                    bad = [k for k, x, y in zip(names, po, co) if x != y]
+                    ctx.violation(f"{pe} vs {ce} differ on {bad} for a raw combinator", (key[0], key[1], pe, key[2], key[3], key[4], key[5]),
+                                  parse=dict(zip(names, po)), check=dict(zip(names, co)))
+    hist["parse_check_pairs"] = pairs
+    hist["stopped_at_max_with_more_input"] = {str(k): v for k, v in sorted(atmax.items())}
+    corpus_max = sorted({r["body"][3] for g in gs.values() for r in g["rules"] if r["body"][0] == "rep" and r["body"][3]} |
+                        {it["max"] for g in gs.values() for it in g.get("nf", []) if it["max"]})
+    missing = [m for m in corpus_max if not atmax.get(m)]
+    if missing and not ctx.replaying:
+        ctx.tie_broken("C19-coverage", {"error": f"no input on which a repetition with MAX in {missing} stopped at MAX although one more iteration would match"})
+    ctx.coverage.setdefault("distribution", {}).update(hist)
+    # the property's quantifier is "all inputs up to length 8": report the bound that was actually enumerated
+    ri = res.meta.get("rep_inputs", {})
+    ctx.coverage["exhaustive_bound"] = ri
+    ctx.coverage["exhaustive"] = all(v >= 8 for v in ri.get("exhaustive_max_length", {"-": 0}).values()) and "{a,b,blank}" in ri.get("exhaustive_max_length", {})
+    if not ctx.coverage["exhaustive"]:
+        ctx.assumptions.append("inputs are enumerated exhaustively only up to the bound recorded in coverage.exhaustive_bound (the property text says length 8); "
+                               "longer inputs are targeted / random; the theorems C19_* hold for all inputs")
 
 
 def check_C05(ctx):
@@ -419,7 +771,12 @@ def check_C05(ctx):
     run = suites.suite_run(ctx.tier, ctx.seed)
     stackg = {gid for gid, gi in run.grammars.items() if gi.get("uses_stack")}
     ctx.tie("T-run:stack-grammars", run, ["v", "end", "stk"], lambda c: c[0] in stackg)
-    threeway(ctx, run, want_tokens=False, gid_filter=lambda g: g in stackg, want_stack=True)
+    threeway(ctx, run, want_tokens=False, gid_filter=lambda g: g in stackg, want_stack=True, skip_fws=True)
+    # the counted repetitions as the generator emits them WITHOUT pest's optimizer (RepExact / RepMin / RepMax / RepMinMax: the
+    # optimizer unrolls `e{n,m}` into options, so the default derive never reaches their per-iteration restore)
+    raw_ast = suites.suite_run_noopt(ctx.tier, ctx.seed)
+    ctx.tie("T-run-noopt:stack-grammars", raw_ast, ["v", "end", "stk"])
+    threeway(ctx, raw_ast, want_tokens=False, want_stack=True, skip_fws=True)
     raw = suites.suite_raw(ctx.tier, ctx.seed)
     ctx.tie("T-raw:restore-points", raw, ["v", "end", "stk"], lambda c: c[0] in ("rep_k", "stackops_n", "stackops_a"))
     raw_oracle(ctx, raw, lambda g, r: g in ("rep_k", "stackops_n", "stackops_a"), "restore point")
@@ -449,6 +806,12 @@ def check_C04(ctx):
         gid, rule, s = c[0], c[1], c[6]
         ginfo = res.grammars[gid]
         if fws_grammar(ginfo):
+            hist["not_judged_fws_grammar"] = hist.get("not_judged_fws_grammar", 0) + 1
+            continue
+        if skip_rule_uses_stack(ginfo):
+            # the closure below runs the skip rules through their own entry points, i.e. on an EMPTY stack: a skip rule that
+            # reads or changes the stack (targeted family s_skipstack_*) cannot be evaluated out of its context
+            hist["not_judged_stack_in_skip_rule"] = hist.get("not_judged_stack_in_skip_rule", 0) + 1
             continue
         kind = dict(ginfo["rules"]).get(rule)
         n = len(s.encode("utf-8"))
@@ -521,42 +884,68 @@ def shift_stack(stk, a):
     return "[" + ",".join(out) + "]"
 
 
+def shift_tracker(trk, a):
+    """'<pos>|<attempts>' with the position moved by a (the attempts are rule names: position-free)"""
+    pos, _, rest = trk.partition("|")
+    return f"{int(pos) + a}|{rest}"
+
+
 def check_C08(ctx):
-    ctx.rule_text = RUN_RULE + "; for every input of at most 3 characters every pair of character-boundary offsets a <= b: Span(s,a,b) and Position(s,a) results vs the result on a fresh copy of the slice (also in the corpus as a &str case), offsets shifted by a; partial and full entry points"
-    res = suites.suite_run(ctx.tier, ctx.seed)
-    ctx.tie("T-run:sub-inputs", res, ["v", "end", "stk", "trk", "tok"], lambda c: c[3] in ("pos", "span"))
-    fresh = {}
-    for c, io, mo in res.rows():
-        if c[3] == "str":
-            fresh[(c[0], c[1], c[2], c[6])] = io
-    for c, io, mo in res.rows():
-        if c[3] not in ("pos", "span"):
-            continue
-        b = c[6].encode("utf-8")
-        a = c[4]
-        e = c[5] if c[3] == "span" else len(b)
-        sl = b[a:e].decode("utf-8")
-        f = fresh.get((c[0], c[1], c[2], sl))
-        if f is None:
-            continue
-        ctx.count(c, io.get("v") == "ok" and io.get("end") != str(a) or a > 0)
-        ctx.sample(c, io)
-        exp = {"v": f.get("v")}
-        if f.get("v") == "ok":
-            if "end" in f:
-                exp["end"] = str(int(f["end"]) + a)
-            exp["stk"] = shift_stack(f.get("stk", "[]"), a)
-            if "tok" in f:
-                exp["tok"] = shift_tokens(parse_tokens(f["tok"]), a)
-        got = {"v": io.get("v")}
-        if io.get("v") == "ok":
-            if "end" in io:
-                got["end"] = io["end"]
-            got["stk"] = io.get("stk", "[]")
-            if "tok" in io:
-                got["tok"] = parse_tokens(io["tok"])
-        if got != exp:
-            ctx.violation("sub-input result differs from the fresh slice shifted by a", c, impl=got, fresh_shifted=exp, slice=sl)
+    ctx.rule_text = RUN_RULE + ("; for every input of at most 3 characters, and for the targeted whole strings of 7-16 characters (CR|LF split by the cut, "
+                                "the terminator of a skip_until just beyond it, literals straddling it, multi-byte characters next to both cuts, stack rules "
+                                "that complete inside a shifted sub-input), every pair of character-boundary offsets a <= b: Span(s,a,b) and Position(s,a) "
+                                "results vs the result on a fresh copy of the slice (also in the corpus as a &str case), offsets shifted by a; all four entry "
+                                "points; on success cursor, final stack and token tree, on failure the furthest position (relative to a) and the recorded "
+                                "attempts; debug build (whole corpus) and release build (unchecked slicing; the release part of the corpus)")
+    hist = {"no_fresh_reference": 0, "compared_ok": 0, "compared_fail": 0, "long_sub_inputs": 0}
+    for label, res in (("dev", suites.suite_run(ctx.tier, ctx.seed)), ("release", suites.suite_run_release(ctx.tier, ctx.seed))):
+        ctx.tie("T-run:sub-inputs" if label == "dev" else "T-run-release:sub-inputs", res, ["v", "end", "stk", "trk", "tok"], lambda c: c[3] in ("pos", "span"))
+        # the byte-level interpreter (Model/RunL0.lean: a cursor into the WHOLE backing string with start / end offsets, the
+        # mechanism this property is about; theorems Props/C08Run.lean) against the binaries of the same build profile
+        ctx.tie_l0("T-l0:sub-inputs" if label == "dev" else "T-l0-release:sub-inputs", res, "1" if label == "dev" else "0", lambda c: c[3] in ("pos", "span"))
+        fresh = {}
+        for c, io, mo in res.rows():
+            if c[3] == "str":
+                fresh[(c[0], c[1], c[2], c[6])] = io
+        for c, io, mo in res.rows():
+            if c[3] not in ("pos", "span"):
+                continue
+            b = c[6].encode("utf-8")
+            a = c[4]
+            e = c[5] if c[3] == "span" else len(b)
+            sl = b[a:e].decode("utf-8")
+            f = fresh.get((c[0], c[1], c[2], sl))
+            if f is None:
+                hist["no_fresh_reference"] += 1
+                continue
+            ctx.count(c, io.get("v") == "ok" and io.get("end") != str(a) or a > 0)
+            ctx.sample(c, io)
+            if len(c[6]) > 6:
+                hist["long_sub_inputs"] += 1
+            exp = {"v": f.get("v")}
+            got = {"v": io.get("v")}
+            if f.get("v") == "ok":
+                hist["compared_ok"] += 1
+                if "end" in f:
+                    exp["end"] = str(int(f["end"]) + a)
+                exp["stk"] = shift_stack(f.get("stk", "[]"), a)
+                if "tok" in f:
+                    exp["tok"] = shift_tokens(parse_tokens(f["tok"]), a)
+            elif f.get("v") == "fail" and "trk" in f:
+                hist["compared_fail"] += 1
+                exp["trk"] = shift_tracker(f["trk"], a)
+            if io.get("v") == "ok":
+                if "end" in io:
+                    got["end"] = io["end"]
+                got["stk"] = io.get("stk", "[]")
+                if "tok" in io:
+                    got["tok"] = parse_tokens(io["tok"])
+            elif io.get("v") == "fail" and "trk" in io:
+                got["trk"] = io["trk"]
+            if got != exp:
+                ctx.violation("sub-input result differs from the fresh slice shifted by a" + ("" if label == "dev" else " [release]"), c,
+                              impl=got, fresh_shifted=exp, slice=sl)
+    ctx.coverage.setdefault("distribution", {}).update(hist)
 
 
 # ---------------------------------------------------------------------------------------------
@@ -612,7 +1001,9 @@ def offsets_oracle(ctx, res, label):
 
 
 def check_C09(ctx):
-    ctx.rule_text = RUN_RULE + "; every reported offset (cursor, stack spans, token spans, tracker position) of every case is tested for range and is_char_boundary; every case runs under catch_unwind with a watchdog; debug profile in the quick tier, debug and release in the thorough tier; non-trivial = input has a multi-byte character or the run consumed / recorded something"
+    ctx.rule_text = RUN_RULE + "; every reported offset (cursor, stack spans, token spans, tracker position) of every case is tested for range and is_char_boundary; every case runs under catch_unwind with a watchdog; debug and release builds of the generated corpus and of the raw combinators in both tiers (release: a subset); T-src:panic-sites = every panic-capable construct of main/src against the reviewed inventory checks/panic_sites.json; thorough tier: Miri support run (harness/miri_runner, dev + release); non-trivial = input has a multi-byte character or the run consumed / recorded something"
+    from . import panic_sites
+    panic_sites.check(ctx)      # T-src:panic-sites: new / vanished panic-capable sites of /repo/main/src, theorem names of the inventory
     res = suites.suite_run(ctx.tier, ctx.seed)
     ctx.tie("T-run:all-observables", res, ["v", "end", "stk", "trk", "tok"])
     offsets_oracle(ctx, res, "dev")
@@ -622,6 +1013,17 @@ def check_C09(ctx):
     rel = suites.suite_run_release(ctx.tier, ctx.seed)
     ctx.tie("T-run-release:all-observables", rel, ["v", "end", "stk", "trk", "tok"])
     offsets_oracle(ctx, rel, "release")
+    # --- T-l0:profiles (separate block): the byte-level interpreter of Model/RunL0.lean (subject of Props/C09Run.lean:
+    # debug = release, no panic / UB) against the binaries of BOTH build profiles, every case of the release corpus in
+    # its release profile (`l0 0`) and every case of the debug corpus in its debug profile (`l0 1`)
+    ctx.tie_l0("T-l0:profiles-release", rel, "0")
+    ctx.tie_l0("T-l0:profiles-debug", res, "1", lambda c: len(res.grammars[c[0]]["rules"]) <= 40)
+    # --- end of T-l0:profiles
+    rawrel = suites.suite_raw_release(ctx.tier, ctx.seed)
+    ctx.tie("T-raw-release:all-observables", rawrel, ["v", "end", "stk", "trk", "tok"])
+    offsets_oracle(ctx, rawrel, "release-raw")
+    if ctx.tier == "thorough" or os.environ.get("VERIF_MIRI") == "1":
+        panic_sites.run_miri(ctx)   # support, not proof: undefined behaviour / panic reported by Miri = violation
     ctx.assumptions.append("memory safety of get_unchecked itself cannot be exhibited by the model: proved is the arithmetic precondition (in range, on a boundary) that makes the unchecked slicing sound")
 
 
@@ -689,18 +1091,25 @@ def check_C10_report(ctx, c, io, pos, hist):
 
 
 def check_C10(ctx):
-    ctx.rule_text = RUN_RULE + "; every rejected case: location in range / on a boundary / not before the end of the matched prefix; same report when the case is repeated (each case appears under parse and check and in several batches); for grammars without stack operations and without implicit skipping every rule listed as expected (unexpected) is re-run at the reported offset through its own rule struct and must fail (match); the report is rendered (Tracker::collect, Display of the error): no panic, line:column = the location recomputed from the input text, first line of the message = text of the line up to the column + ^---"
+    ctx.rule_text = RUN_RULE + "; every rejected case (whole strings, Position and Span sub-inputs, all four entry points): location inside the (sub-)input / on a boundary / not before the end of the prefix the partial entry point of the same path matched; for sub-inputs the report equals the report on a fresh copy of the slice moved by the start offset; same report when the case is repeated (each case appears under parse and check and in several batches); for grammars without stack operations and without implicit skipping every rule listed as expected (unexpected) is re-run at the reported offset through its own rule struct and must fail (match); the report is rendered (Tracker::collect, Display of the error): no panic, line:column = the location recomputed from the input text, first line of the message = text of the line up to the column + ^---"
     res = suites.suite_run(ctx.tier, ctx.seed)
     ctx.tie("T-run:tracker", res, ["v", "trk"])
     at = {}
+    at_span = {}
+    fresh_fail = {}
     failing = set()
     for c, io, mo in res.rows():
         if c[2] == "parse_partial" and c[3] in ("pos", "str"):
             at[(c[0], c[1], c[6], c[4] if c[3] == "pos" else 0)] = io.get("v")
+        elif c[2] == "parse_partial" and c[3] == "span":
+            at_span[(c[0], c[1], c[6], c[4], c[5])] = io.get("v")
+        if c[3] == "str" and io.get("v") == "fail" and "trk" in io:
+            fresh_fail[(c[0], c[1], c[2], c[6])] = io["trk"]
         if io.get("v") == "fail" or mo.get("v") == "fail":
             failing.add(c)
     ctx.tie("T-run:message", res, ["msg", "lc"], lambda c: c in failing)
-    hist = {"rejected": 0, "expected_checked": 0, "unexpected_checked": 0, "rendered": 0, "rendered_after_line_1": 0, "rendered_multibyte_prefix": 0, "rendered_cr_in_prefix": 0, "rendered_both_lists": 0, "rendered_special": 0}
+    hist = {"rejected": 0, "rejected_sub_inputs": 0, "sub_input_location_vs_fresh_slice": 0, "prefix_end_checked": 0, "expected_checked": 0, "unexpected_checked": 0,
+            "rendered": 0, "rendered_after_line_1": 0, "rendered_multibyte_prefix": 0, "rendered_cr_in_prefix": 0, "rendered_both_lists": 0, "rendered_special": 0}
     for key, ent in group_by_input(res).items():
         for en in ("parse", "parse_partial", "check", "check_partial"):
             if en not in ent:
@@ -719,12 +1128,31 @@ def check_C10(ctx):
                 ctx.violation("error location out of range or off a character boundary", c, position=pos)
                 continue
             check_C10_report(ctx, c, io, pos, hist)
-            if en == "parse" and "parse_partial" in ent and ent["parse_partial"][1].get("v") == "ok":
-                pend = int(ent["parse_partial"][1]["end"])
+            # a full entry point that fails although the prefix entry point of the same path matched: not before that prefix's end
+            pen = {"parse": "parse_partial", "check": "check_partial"}.get(en)
+            if pen and pen in ent and ent[pen][1].get("v") == "ok":
+                pend = int(ent[pen][1]["end"])
+                hist["prefix_end_checked"] += 1
                 if pos < pend:
                     ctx.violation("error location lies before the end of the matched prefix", c, position=pos, prefix_end=pend)
+            if c[3] in ("pos", "span"):
+                # a Span / Position sub-input (the range test above holds for it: inside [start, end] of the SUB-input; line:column
+                # and the line text of the report were recomputed from the WHOLE string at that offset): the report must be the one
+                # a fresh copy of the slice gives, moved by the start offset - same furthest position, same recorded attempts
+                hist["rejected_sub_inputs"] += 1
+                ft = fresh_fail.get((c[0], c[1], c[2], b[lo:hi].decode("utf-8")))
+                if ft is not None:
+                    hist["sub_input_location_vs_fresh_slice"] += 1
+                    if shift_tracker(ft, lo) != io["trk"]:
+                        ctx.violation("error report of a sub-input parse differs from the report on a fresh copy of the slice moved by the start offset", c,
+                                      position=pos, recorded=io["trk"], fresh_slice_moved=shift_tracker(ft, lo))
             ginfo = res.grammars[c[0]]
-            simple = not ginfo.get("uses_stack") and not re.search(r"WHITESPACE|COMMENT|SOI", ginfo["text"]) and c[3] != "span"
+            simple = not ginfo.get("uses_stack") and not re.search(r"WHITESPACE|COMMENT|SOI", ginfo["text"])
+            if simple and c[3] == "span":
+                # re-run the listed rules on the Span that starts at the reported offset and ends where the sub-input ends
+                at_here = lambda r: at_span.get((c[0], r, c[6], pos, hi))
+            else:
+                at_here = lambda r: at.get((c[0], r, c[6], pos))
             if simple and en in ("parse", "parse_partial"):
                 for part in io["trk"].split("|", 1)[1].split(";"):
                     if not part:
@@ -732,13 +1160,13 @@ def check_C10(ctx):
                     upper, rest = part.split(":", 1)
                     positives, negatives, _ = rest.split("/")
                     for r in filter(None, positives.split(",")):
-                        v = at.get((c[0], r, c[6], pos)) if r != "EOI" else ("ok" if pos == hi else "fail")
+                        v = at_here(r) if r != "EOI" else ("ok" if pos == hi else "fail")
                         if v is not None:
                             hist["expected_checked"] += 1
                             if v == "ok":
                                 ctx.violation("rule listed as expected matches at the reported location", c, rule=r, position=pos)
                     for r in filter(None, negatives.split(",")):
-                        v = at.get((c[0], r, c[6], pos)) if r != "EOI" else ("ok" if pos == hi else "fail")
+                        v = at_here(r) if r != "EOI" else ("ok" if pos == hi else "fail")
                         if v is not None:
                             hist["unexpected_checked"] += 1
                             if v == "fail":
@@ -796,8 +1224,94 @@ CHECKS = {
 }
 
 
+class _NoRows:
+    """stand-in for the suites a replay does not re-run (T-raw, …)"""
+    dir = None
+    meta = {}
+    grammars = {}
+    cases = []
+
+    def rows(self):
+        return iter(())
+
+
+REPLAYABLE = ("C01", "C02", "C03", "C04", "C05", "C06", "C07", "C08", "C09", "C10")
+
+
 def replay(pid, path):
+    """`check.py Cxx --replay <file>`: prints the recorded failure; an `impl-vs-oracle` replay of a T-run property that
+    carries the grammar text is RE-EXECUTED on the current /repo: a one-grammar workspace is built (binaries `rp*`), the
+    recorded case and its companions (every rule and entry point on the input, every Position / Span cut of it when the
+    case is a sub-input, the fresh slice, the skip rules at every offset) run on the implementation and on the model, and
+    the property's own oracle judges them.  Exit 1 if the recorded violation (same oracle message, same case) is still
+    raised, 0 otherwise."""
     r = json.load(open(path))
-    print(json.dumps(r, indent=1, ensure_ascii=False)[:4000])
-    print("re-run: ./check.py", pid, "--tier", r.get("tier", "quick"), "(VERIF_SEED=%s)" % r.get("seed"))
-    return 0
+    shown = json.loads(json.dumps(r))
+    for v in [shown.get("first")] + list(shown.get("more", []) or []):
+        if isinstance(v, dict) and len(v.get("grammar_text", "")) > 1500:
+            v["grammar_text"] = v["grammar_text"][:1500] + " …"
+    print(json.dumps(shown, indent=1, ensure_ascii=False)[:6000])
+    v = r.get("first") if r.get("kind") == "impl-vs-oracle" else None
+    if not isinstance(v, dict) or "grammar_text" not in v or pid not in REPLAYABLE:
+        print("(not re-executable: no concrete case with grammar text) re-run: ./check.py", pid, "--tier", r.get("tier", "quick"), "(VERIF_SEED=%s)" % r.get("seed"))
+        return 0
+    import random
+    import corpus
+    case = v["case"]
+    gid = case["grammar"]
+    g0 = {"gid": gid, "text": v["grammar_text"]}
+    if case["entry"] == "build":
+        suites.ensure_driver()
+        ok, bad = corpus.validate([dict(g0)])
+        _, built, failures = suites.build_corpus(ok, os.path.join(common.BUILD, "ws_mini_replay"), "rp", attrs=v.get("attrs", "")) if ok else (None, [], [])
+        print("REPLAY derive output of", gid, "->", "still does not compile:\n" + failures[0]["error"][:1500] if failures else "compiles now")
+        return 1 if failures else 0
+    inp = case["input"]
+    sub = case["form"] in ("pos", "span")
+    g0["inputs"] = [inp]
+    g0["exh"] = 0
+    if sub:
+        g0["subinputs"] = [inp]
+    want = (v["what"].split(" [")[0], json.dumps(case, sort_keys=True, ensure_ascii=False))
+    variants = [("release", dict(release=True))] if "[release]" in v["what"] else \
+        [("default derive, debug build", {}), ("#[pest_optimizer = false]", dict(attrs="#[pest_optimizer = false]", line_prefix="opts 00 "))]
+    saved = {n: getattr(suites, n) for n in dir(suites) if n.startswith("suite_") and n != "suite_mini"}
+    from . import tgen
+    saved_tgen = tgen.tie_tgen
+    still = None
+    try:
+        for label, kw in variants:
+            rnd = random.Random(1)
+            mini = suites.suite_mini(f"replay{os.getpid()}", [dict(g0)], cases_of=lambda g: suites.run_cases_for(g, rnd, 0, 0, -1), **kw)
+            for n in saved:
+                setattr(suites, n, (lambda t, s, _m=mini: _m) if n.startswith("suite_run") else (lambda t, s: _NoRows()))
+            tgen.tie_tgen = lambda *a, **k: None
+            ctx = Ctx(pid, "quick", r.get("seed") or 0)
+            ctx.replaying = True
+            try:
+                CHECKS[pid](ctx)
+            except Exception as e:
+                print("REPLAY: the check raised on the one-grammar suite:", str(e)[-600:])
+            hits = [x for x in ctx.violations if (x["what"].split(" [")[0], json.dumps(x["case"], sort_keys=True, ensure_ascii=False)) == want]
+            rows = [(c, io, mo) for c, io, mo in mini.rows() if case_dict(c) == case]
+            print(f"REPLAY ({label}) on /repo {common.repo_head()}: case {json.dumps(case, ensure_ascii=False)}")
+            for c, io, mo in rows:
+                keys = [k for k in ("v", "end", "stk", "trk", "tok", "msg", "lc", "pest") if k in io or k in mo]
+                print("  actual   (implementation):", {k: io.get(k) for k in keys})
+                print("  model    (Lean driver)   :", {k: mo.get(k) for k in keys + ["spec"] if k in mo})
+            if hits:
+                h = {k: x for k, x in hits[0].items() if k not in ("grammar_text", "case")}
+                print("  oracle   STILL FAILS:", json.dumps(h, ensure_ascii=False)[:1500])
+                still = label
+                break
+            others = [x for x in ctx.violations if x["case"].get("input") == inp]
+            print("  oracle   does not raise the recorded violation" + (f" ({len(others)} other violation(s) on this input, first: {others[0]['what']})" if others else ""))
+    finally:
+        for n, f in saved.items():
+            setattr(suites, n, f)
+        tgen.tie_tgen = saved_tgen
+        import subprocess
+        nm = f"replay{os.getpid()}"
+        subprocess.call(["rm", "-rf", os.path.join(common.BUILD, "ws_mini_" + nm)] + [os.path.join(common.BUILD, "mini", nm + x) for x in ("", ".sexp", ".uni", ".lock")])
+    print("REPLAY verdict:", "still fails" if still else "no longer fails")
+    return 1 if still else 0
